@@ -52,6 +52,17 @@ CLAIMED = {
              "2..5 graphs and disconnected graphs under every RNG mode: identical lower bounds for identical labellings, "
              "valid brackets everywhere, symmetric zero-diagonal matrices, warning + largest component. Exploration.",
         note="Ties among largest components accept any of them; bool dtype only for lists/dense arrays."),
+    "C12": dict(
+        design="4/C12", engine="history",
+        technique="deterministic simulation of configuration histories: seeded, scheduler-interleaved operation "
+                  "sequences over several live imagers, invariant checked after every step through public attributes "
+                  "and narrow-kernel edge probes against a rational-arithmetic geometry model; minimised replayable histories",
+        text="No scheduling nondeterminism exists here; the search is over histories (constructor / range / pixel-size "
+             "assignments / fits / idempotent re-assignments, 1..12 steps, 1..3 interleaved instances) biased to inexact "
+             "quotients and non-multiples. After every step: width/height == extents, resolution*pixel_size == "
+             "width/height, image shape == resolution, pixel boundaries where the reported geometry says (probe), "
+             "request covered with <= 1 pixel excess. Exploration.",
+        note="Identities rel 1e-9; probes resolve boundary errors above 1% of a pixel; only in-domain operations generated."),
 }
 
 NOT_APPLICABLE = {
